@@ -418,6 +418,26 @@ func init() {
 	reg("math/rand.Seed", func(e *Engine, args []Value, fn *ssa.Function) Value { return nil })
 }
 
+type uniqueEnt struct {
+	v Value
+	o *Obj
+}
+
+func init() {
+	reg("unique.Make", func(e *Engine, args []Value, fn *ssa.Function) Value {
+		for _, u := range e.uniqueTab {
+			if e.valEqNoFork(u.v, args[0]) {
+				return &Struct{F: []Value{Ptr{Obj: u.o}}}
+			}
+		}
+		o := e.newObj(fn.Signature.Params().At(0).Type())
+		o.epoch = 0
+		e.store(o, args[0])
+		e.uniqueTab = append(e.uniqueTab, uniqueEnt{args[0], o})
+		return &Struct{F: []Value{Ptr{Obj: o}}}
+	})
+}
+
 type lockState struct {
 	w    bool
 	r    int
